@@ -19,6 +19,7 @@ CONSTANTS
   MaxLag = 1
   MaxProbes = 1
   MaxReorg = 0
+  MaxCrash = 0
   ExportOn = TRUE
   SampleMod = 200
 INIT Init
